@@ -19,7 +19,25 @@ class Case(object):
         raise NotImplementedError
 
     def impl(self):
-        return run_impl(self.thunk())
+        del _BUILT[:]
+        holder = []
+        th = self.thunk()
+
+        def wrapped():
+            r = th()
+            holder.append(r)
+            return r
+        res = run_impl(wrapped)
+        for rec in _BUILT:
+            bad = _snapshot_ok(*rec)
+            if bad and len(PURITY_BREAKS) < 20:
+                PURITY_BREAKS.append({'case': self.show(), 'what': bad, 'data': self.data()})
+        if holder:
+            bad = _aliasing(holder[0], _BUILT)
+            if bad and len(PURITY_BREAKS) < 20:
+                PURITY_BREAKS.append({'case': self.show(), 'what': bad, 'data': self.data()})
+        del _BUILT[:]
+        return res
 
     def show(self):
         raise NotImplementedError
@@ -29,8 +47,49 @@ class Case(object):
         raise NotImplementedError
 
 
+# Every signature object handed to the implementation is remembered here so
+# that Case.impl() can verify, after the call, that the implementation left it
+# unchanged (the validity condition of a functional model; C16, first sentence).
+_BUILT = []
+PURITY_BREAKS = []
+
+
+def _build(d, upgraded=True):
+    s = build_sig(d, upgraded)
+    if upgraded:
+        _BUILT.append((d, s, list(s.parameters.values()), s.sources,
+                       {k: v for k, v in s.sources.items()}))
+    return s
+
+
 def _sigs(ds, upgraded=True):
-    return [build_sig(d, upgraded) for d in ds]
+    return [_build(d, upgraded) for d in ds]
+
+
+def _snapshot_ok(d, s, params, srcmap, srclists):
+    if list(s.parameters.values()) != params or any(a is not b for a, b in zip(s.parameters.values(), params)):
+        return 'parameter objects replaced'
+    if s.sources is not srcmap:
+        return 'sources map replaced'
+    now = describe_sig(s)
+    if (now['params'], now['srcs'], now['deps']) != (list(d['params']), d['srcs'], d['deps']):
+        return 'input changed from %s %s %s to %s %s %s' % (d['params'], d['srcs'], d['deps'], now['params'], now['srcs'], now['deps'])
+    for k, v in s.sources.items():
+        if srclists.get(k) is not v:
+            return 'source list of %r replaced' % (k,)
+    return None
+
+
+def _aliasing(result, built):
+    if not hasattr(result, 'sources'):
+        return None
+    for d, s, params, srcmap, srclists in built:
+        if result.sources is s.sources:
+            return 'result shares its sources map with an input'
+        for k, v in result.sources.items():
+            if k in s.sources and v is s.sources[k] and v not in ({}, []):
+                return 'result shares the %r entry of its sources with an input' % (k,)
+    return None
 
 
 class Merge(Case):
@@ -109,7 +168,7 @@ class Mask(Case):
 
     def thunk(self):
         ha, hk, hva, hvk = self.flags
-        return lambda: PS.mask(build_sig(self.d, self.upgraded), self.n,
+        return lambda: PS.mask(_build(self.d, self.upgraded), self.n,
                                *[name_of(k) for k in self.names],
                                hide_args=ha, hide_kwargs=hk, hide_varargs=hva,
                                hide_varkwargs=hvk)
@@ -144,7 +203,7 @@ class Partial(Case):
 
     def thunk(self):
         def th():
-            return S._mask(build_sig(self.d), self.n, False, False, False, False,
+            return S._mask(_build(self.d), self.n, False, False, False, False,
                            dict((name_of(k), v) for k, v in self.kw), fn_of(self.pobj))
         return th
 
@@ -171,7 +230,7 @@ class Forwards(Case):
             ' '.join(b(f) for f in (self.ha, self.hk, self.uva, self.uvk, self.partial)))
 
     def thunk(self):
-        return lambda: PS.forwards(build_sig(self.o, self.upgraded), build_sig(self.i, self.upgraded),
+        return lambda: PS.forwards(_build(self.o, self.upgraded), _build(self.i, self.upgraded),
                                    self.n, *[name_of(k) for k in self.names],
                                    hide_args=self.ha, hide_kwargs=self.hk,
                                    use_varargs=self.uva, use_varkwargs=self.uvk,
@@ -199,7 +258,7 @@ class SortApply(Case):
 
     def thunk(self):
         def th():
-            s = build_sig(self.d)
+            s = _build(self.d)
             return PS.apply_params(s, *PS.sort_params(s))
         return th
 
@@ -274,13 +333,23 @@ def proj_errclass(r):
     return ('ok',)
 
 
-def run_cases(cases, jobs=None):
+def run_cases(cases, jobs=None, rep=None):
     """-> list of (case, model_result, impl_result)"""
     outs = run_driver_parallel([c.request() for c in cases], jobs)
     res = []
     for c, o in zip(cases, outs):
         res.append((c, parse_result(o), c.impl()))
     return res
+
+
+def report_purity(rep):
+    """Input mutation / aliasing invalidates the functional reading of every
+    theorem: reported by each check as a broken correspondence."""
+    for pb in PURITY_BREAKS:
+        rep.corr_break('inputs-unchanged (functional model validity)', pb['case'], 'inputs unchanged, result not aliased', pb['what'])
+    n = len(PURITY_BREAKS)
+    del PURITY_BREAKS[:]
+    return n
 
 
 def ask(lines):
